@@ -50,7 +50,7 @@ func (f *Mod) Call(s *slip.Scope, args slip.List, depth int) (result slip.Object
 	if _, ok := args[1].(slip.Real); !ok {
 		slip.TypePanic(s, depth, "divisor", args[1], "real")
 	}
-	n, d := slip.NormalizeNumber(args[0], args[1])
+	n, d := normalizeReals(args[0], args[1])
 	switch num := n.(type) {
 	case slip.Fixnum:
 		div := int64(d.(slip.Fixnum))
@@ -75,6 +75,21 @@ func (f *Mod) Call(s *slip.Scope, args slip.List, depth int) (result slip.Object
 			_ = z.Add(&z, div)
 		}
 		result = (*slip.Bignum)(&z)
+	case *slip.Ratio:
+		div := (*big.Rat)(d.(*slip.Ratio))
+		if div.Sign() == 0 {
+			slip.ArithmeticPanic(s, depth, slip.Symbol("/"), args, "divide by zero")
+		}
+		// The denominator of a big.Rat is positive so the Euclidean division
+		// of big.Int.Div is the floor of the quotient.
+		var (
+			q  big.Rat
+			fq big.Int
+			z  big.Rat
+		)
+		_ = q.Quo((*big.Rat)(num), div)
+		_ = q.SetInt(fq.Div(q.Num(), q.Denom()))
+		result = (*slip.Ratio)(z.Sub((*big.Rat)(num), q.Mul(&q, div)))
 	case slip.Real:
 		div := (d.(slip.Real)).RealValue()
 		if div == 0.0 {
